@@ -17,14 +17,24 @@ pub open spec fn const_text(value: AConstant, range: rustpython_parser::text_siz
         None => debug_v(&value),
     }
 }
+/// an expression the printer does not take apart is printed as it is WRITTEN (the characters of `content` between the
+/// byte offsets of the node's own range) when that range is a valid slice of `content`, else as `Any`
+pub open spec fn other_text(e: AExpr, content: Seq<char>) -> Seq<char> {
+    match get_range_v(content, tsv(tr_start(ann_expr_range(e))) as int, tsv(tr_end(ann_expr_range(e))) as int) {
+        Some(t) => t,
+        None => any_text(),
+    }
+}
 ///   Name            id
 ///   Attribute       <value>.attr
 ///   Subscript       <value>[<slice>]
 ///   Tuple           elements joined by ", " (no parentheses; the empty tuple prints as the empty text)
 ///   Constant        const_text
 ///   BinOp `|`       <left> | <right>
-///   anything else   Any       (Call, List, Starred, UnaryOp, every other BinOp, Dict, Set, Lambda, IfExp, BoolOp,
-///                              Compare, JoinedStr, Slice, Await, comprehensions, NamedExpr, Yield, ...)
+///   anything else   other_text: the expression AS WRITTEN — the slice of `content` its own range denotes — when that is
+///                   a valid slice, else `Any`   (Call, List, Starred, UnaryOp, every other BinOp, Dict, Set, Lambda,
+///                   IfExp, BoolOp, Compare, JoinedStr, Slice, Await, comprehensions, NamedExpr, Yield, ...;
+///                   /repo cf97e77 — before that always `Any`, F-03d)
 pub open spec fn op_ann_text(e: AExpr, c: Seq<char>) -> Seq<char>
     decreases e, 0int
 {
@@ -34,8 +44,8 @@ pub open spec fn op_ann_text(e: AExpr, c: Seq<char>) -> Seq<char>
         rustpython_parser::ast::Expr::Subscript(s) => op_ann_text(*s.value, c) + "["@ + op_ann_text(*s.slice, c) + "]"@,
         rustpython_parser::ast::Expr::Tuple(t) => join_v(ann_texts(t.elts@, t.elts@.len() as int, c), comma_sep()),
         rustpython_parser::ast::Expr::Constant(k) => const_text(k.value, k.range, c),
-        rustpython_parser::ast::Expr::BinOp(b) => if is_bitor(b.op) { op_ann_text(*b.left, c) + " | "@ + op_ann_text(*b.right, c) } else { any_text() },
-        _ => any_text(),
+        rustpython_parser::ast::Expr::BinOp(b) => if is_bitor(b.op) { op_ann_text(*b.left, c) + " | "@ + op_ann_text(*b.right, c) } else { other_text(e, c) },
+        _ => other_text(e, c),
     }
 }
 /// the printed texts of the first n elements, in order
